@@ -114,7 +114,8 @@ def _interleave_worker(args):
     import logging
     logging.disable(logging.CRITICAL)
     import pyqasm
-    src, hist, others = args
+    src, hist, others = args[:3]
+    other_ops = args[3] if len(args) > 3 else ("validate", "unroll", "depth")
 
     try:
         pyqasm.loads(src)
@@ -131,7 +132,7 @@ def _interleave_worker(args):
                 except Exception:
                     outs.append(call(m, op))
                     continue
-                for oop in ("validate", "unroll", "depth"):
+                for oop in other_ops:
                     try:
                         getattr(o, oop)()
                     except Exception:
@@ -321,6 +322,22 @@ def run(tier, seed, replay):
             chk.violation("interference_%d" % nbad, {"kind": "interleaving", "source": src, "calls": hist, "other_programs": oth,
                                                      "what": "outcome of %s changes when other modules are processed in between" % o[2],
                                                      "alone": list(map(str, o[4])), "interleaved": list(map(str, o[3]))})
+    # ... not even a module loaded from the SAME text (a second load shares nothing with the first): the other module
+    # is validated, unrolled and transformed in place between the subject's calls
+    same_ops = ("validate", "remove_idle_qubits", "dumps_", "reverse_qubit_order", "remove_measurements", "populate_idle_qubits", "remove_barriers", "unroll")
+    sjobs = []
+    for src in modcheck.FIXED_PROGRAMS + progs[:6]:
+        for hist in (["dumps", "validate", "dumps", "unroll", "dumps", "depth"], ["unroll", "dumps", "num_qubits", "depth"], ["num_qubits", "dumps", "has_measurements"],
+                     [rnd.choice(OPS) for _ in range(4)]):
+            sjobs.append((src, hist, [src], tuple(o for o in same_ops if o != "dumps_")))
+    with multiprocessing.Pool(12) as pool:
+        sout = pool.map(_interleave_worker, sjobs, chunksize=4)
+    for (src, hist, oth, _), o in zip(sjobs, sout):
+        if o[0] == "diff" and nbad < 9:
+            nbad += 1
+            chk.violation("same_text_%d" % nbad, {"kind": "interleaving", "source": src, "calls": hist, "other_programs": oth,
+                                                  "what": "outcome of %s changes when a second module loaded from the same text is validated, unrolled and transformed in between" % o[2],
+                                                  "alone": list(map(str, o[4])), "interleaved": list(map(str, o[3]))})
     subjects, clash_others = name_clash_cases()
     cjobs = [(sj, [rnd.choice(["validate", "unroll", "depth", "num_qubits", "dumps"]) for _ in range(3)], rnd.sample(clash_others, 4)) for sj in subjects for _ in range(2)]
     with multiprocessing.Pool(12) as pool:
@@ -395,7 +412,7 @@ def run(tier, seed, replay):
         "distinct_nontrivial": len(set((s, tuple(h)) for s, h in jobs)) + len(set((s, tuple(h)) for s, h, _ in ijobs)),
         "rule": "rejected-program histories (each call compared with the same call on a never-processed module), interleavings with other modules in one process, "
                 "the same histories in five fresh processes with different hash seeds, and rejected-program histories against the abstract machine; non-trivial: every history has >= 2 calls",
-        "rejected_program_histories": n_hist, "interleavings": len(ijobs) + len(cjobs), "became_rejected_mid_history": sum(1 for o in rout if o[0] == "ok-failed"), "hash_seeds": list(digests), "seed_digest": sorted(set(digests.values())),
+        "rejected_program_histories": n_hist, "interleavings": len(ijobs) + len(cjobs) + len(sjobs), "became_rejected_mid_history": sum(1 for o in rout if o[0] == "ok-failed"), "hash_seeds": list(digests), "seed_digest": sorted(set(digests.values())),
         "machine_histories_agree": sum(1 for c in codes if c == 0),
         "traces_validated_against_impl": sum(1 for o in out if o[0] == "ok") + sum(1 for o in iout if o[0] == "ok"),
         "samples": [{"source": jobs[0][0], "calls": jobs[0][1]}, {"source": ijobs[0][0], "calls": ijobs[0][1]}],
